@@ -1483,4 +1483,314 @@ impl Family for Cw1Family {
     fn run(&self, prop: &str, case: &Case, ctx: &mut CaseCtx) -> Result<(), Violation> {
         run_case(prop, case, ctx)
     }
+    fn decode(&self, prop: &str, u: &mut arbitrary::Unstructured) -> Option<Case> {
+        Some(decode_case(prop, u))
+    }
+}
+
+// ---------------------------------------------------------------- byte decoder (fuzz front-end)
+// Mirrors `case_strategy` arm by arm (same arms, same weights, same value ranges); one byte per choice.
+
+use vcore::amounts::{arb_below, arb_bool, arb_u128};
+
+/// arm index drawn with the weights of the corresponding `prop_oneof!` (one byte while the weights sum
+/// to <= 256); arms of weight 0 are unreachable, an exhausted input selects the first arm of weight > 0
+fn d_arm(u: &mut arbitrary::Unstructured, w: &[u32]) -> usize {
+    let total: u32 = w.iter().sum();
+    let mut r = arb_below(u, total as usize) as u32;
+    for (i, x) in w.iter().enumerate() {
+        if r < *x {
+            return i;
+        }
+        r -= *x;
+    }
+    0
+}
+/// 16-bit state-relative selector from one byte (`pick` only looks at the top bits)
+fn d_sel(u: &mut arbitrary::Unstructured) -> u16 {
+    u.arbitrary::<u8>().unwrap_or(0) as u16 * 257
+}
+/// -1..=1
+fn d_delta(u: &mut arbitrary::Unstructured) -> i8 {
+    arb_below(u, 3) as i8 - 1
+}
+/// `addr_ix`
+fn d_addr(u: &mut arbitrary::Unstructured) -> u8 {
+    match arb_below(u, 45) {
+        r @ 0..=39 => (r % N_ACTORS) as u8,
+        40 => N_ACTORS as u8,
+        41 => N_ACTORS as u8 + 1,
+        _ => N_ADDR as u8,
+    }
+}
+/// `denom_ix` / `denom_grant` / `denom_decrease`: weights of [Held, Ix(0..3), Ix(3)]
+fn d_den(u: &mut arbitrary::Unstructured, w: [u32; 3]) -> Den {
+    match d_arm(u, &w) {
+        0 => Den::Held(d_sel(u)),
+        1 => Den::Ix(arb_below(u, 3) as u8),
+        _ => Den::Ix(3),
+    }
+}
+fn d_den_msg(u: &mut arbitrary::Unstructured) -> Den {
+    d_den(u, [10, 4, 1])
+}
+fn d_bytes(u: &mut arbitrary::Unstructured) -> Vec<u8> {
+    let n = arb_below(u, 5);
+    (0..n).map(|_| u.arbitrary().unwrap_or(0)).collect()
+}
+/// `amt_msg`
+fn d_amt_msg(u: &mut arbitrary::Unstructured) -> Amt {
+    match d_arm(u, &[6, 5, 4, 2, 1, 3, 1]) {
+        0 => Amt::Frac(u.arbitrary().unwrap_or(0)),
+        1 => Amt::Rest(d_delta(u)),
+        2 => Amt::Rel(d_delta(u)),
+        3 => Amt::Abs(0),
+        4 => Amt::Abs(1),
+        5 => Amt::Abs(arb_below(u, 200) as u128),
+        _ => Amt::Abs(arb_u128(u)),
+    }
+}
+/// `amt_grant`
+fn d_amt_grant(u: &mut arbitrary::Unstructured) -> Amt {
+    match d_arm(u, &[1, 1, 14, 2, 1, 1]) {
+        0 => Amt::Abs(0),
+        1 => Amt::Abs(1),
+        2 => Amt::Abs(1 + u.arbitrary::<u16>().unwrap_or(0) as u128 % 999),
+        3 => Amt::Abs(u.arbitrary::<u32>().unwrap_or(0) as u128 % 1_000_001),
+        4 => Amt::Abs(arb_u128(u)),
+        _ => Amt::Rel(d_delta(u)),
+    }
+}
+/// `amt_decrease`
+fn d_amt_decrease(u: &mut arbitrary::Unstructured) -> Amt {
+    match d_arm(u, &[5, 6, 1, 4, 1]) {
+        0 => Amt::Rel(d_delta(u)),
+        1 => Amt::Frac(u.arbitrary().unwrap_or(0)),
+        2 => Amt::Abs(0),
+        3 => Amt::Abs(u.arbitrary::<u16>().unwrap_or(0) as u128 % 300),
+        _ => Amt::Abs(arb_u128(u)),
+    }
+}
+/// `coins(max)`
+fn d_coins(u: &mut arbitrary::Unstructured, max: usize) -> Coins {
+    let n = match d_arm(u, &[1, 8, 4]) {
+        0 => 0,
+        1 => 1,
+        _ => arb_below(u, max + 1),
+    };
+    (0..n).map(|_| (d_den_msg(u), d_amt_msg(u))).collect()
+}
+/// `exp_spec`
+fn d_exp(u: &mut arbitrary::Unstructured) -> ExpSpec {
+    match d_arm(u, &[3, 6, 6, 1]) {
+        0 => ExpSpec::Never,
+        1 => ExpSpec::Height(arb_below(u, 10) as i32 - 2),
+        2 => ExpSpec::Time(arb_below(u, 70) as i64 - 10),
+        _ => ExpSpec::Height(u.arbitrary::<u16>().unwrap_or(0) as i32 % 10_000),
+    }
+}
+fn d_opt_addr(u: &mut arbitrary::Unstructured) -> Option<u8> {
+    if arb_bool(u, 1, 2) {
+        None
+    } else {
+        Some(d_addr(u))
+    }
+}
+/// `msg_spec(w)`
+fn d_msg(u: &mut arbitrary::Unstructured, w: MsgWeights) -> MsgSpec {
+    let (s, d, o) = (w.staking, w.distr, w.other);
+    let val = |u: &mut arbitrary::Unstructured| arb_below(u, 2) as u8;
+    match d_arm(u, &[w.send, w.burn, s, s, s, d, d, d, o, o, o, o, o, o, o, o, o, o, o, o, o, o]) {
+        0 => MsgSpec::Send { to: d_addr(u), coins: d_coins(u, 3) },
+        1 => MsgSpec::Burn { coins: d_coins(u, 2) },
+        2 => MsgSpec::Delegate { val: val(u), denom: d_den_msg(u), amt: d_amt_msg(u) },
+        3 => MsgSpec::Undelegate { val: val(u), denom: d_den_msg(u), amt: d_amt_msg(u) },
+        4 => MsgSpec::Redelegate { src: val(u), dst: val(u), denom: d_den_msg(u), amt: d_amt_msg(u) },
+        5 => MsgSpec::SetWithdrawAddress { to: d_addr(u) },
+        6 => MsgSpec::WithdrawReward { val: val(u) },
+        7 => MsgSpec::FundCommunityPool { coins: d_coins(u, 2) },
+        8 => MsgSpec::WasmExecute { to: d_addr(u), payload: d_bytes(u), coins: d_coins(u, 2) },
+        9 => MsgSpec::WasmInstantiate { admin: d_opt_addr(u), code_id: arb_below(u, 9) as u64, payload: d_bytes(u), coins: d_coins(u, 2) },
+        10 => MsgSpec::WasmInstantiate2 { admin: d_opt_addr(u), code_id: arb_below(u, 9) as u64, payload: d_bytes(u), coins: d_coins(u, 2), salt: d_bytes(u) },
+        11 => MsgSpec::WasmMigrate { to: d_addr(u), code_id: arb_below(u, 9) as u64, payload: d_bytes(u) },
+        12 => MsgSpec::WasmUpdateAdmin { to: d_addr(u), admin: d_addr(u) },
+        13 => MsgSpec::WasmClearAdmin { to: d_addr(u) },
+        14 => MsgSpec::IbcTransfer { channel: val(u), to: d_addr(u), denom: d_den_msg(u), amt: d_amt_msg(u), timeout: arb_below(u, 3) as u8, memo: arb_bool(u, 1, 2) },
+        15 => MsgSpec::IbcSendPacket { channel: val(u), data: d_bytes(u), timeout: arb_below(u, 3) as u8 },
+        16 => MsgSpec::IbcCloseChannel { channel: val(u) },
+        17 => MsgSpec::GovVote { id: arb_below(u, 5) as u64, option: arb_below(u, 4) as u8 },
+        18 => {
+            let id = arb_below(u, 5) as u64;
+            let n = arb_below(u, 3);
+            MsgSpec::GovVoteWeighted { id, options: (0..n).map(|_| (arb_below(u, 4) as u8, arb_below(u, 101) as u8)).collect() }
+        }
+        19 => MsgSpec::Stargate { url: val(u), value: d_bytes(u) },
+        20 => MsgSpec::Any { url: val(u), value: d_bytes(u) },
+        _ => MsgSpec::Custom,
+    }
+}
+/// `grantable_msg`
+fn d_grantable(u: &mut arbitrary::Unstructured) -> MsgSpec {
+    let val = |u: &mut arbitrary::Unstructured| arb_below(u, 2) as u8;
+    match d_arm(u, &[8, 1, 1, 1, 1, 1]) {
+        0 => {
+            let to = d_addr(u);
+            let n = 1 + arb_below(u, 2);
+            let coins = (0..n)
+                .map(|_| {
+                    let den = Den::Held(d_sel(u));
+                    let amt = match d_arm(u, &[4, 2, 1, 1]) {
+                        0 => Amt::Frac(arb_below(u, 80) as u8),
+                        1 => Amt::Rest(0),
+                        2 => Amt::Abs(1),
+                        _ => Amt::Abs(0),
+                    };
+                    (den, amt)
+                })
+                .collect();
+            MsgSpec::Send { to, coins }
+        }
+        1 => MsgSpec::Delegate { val: val(u), denom: d_den_msg(u), amt: d_amt_msg(u) },
+        2 => MsgSpec::Undelegate { val: val(u), denom: d_den_msg(u), amt: d_amt_msg(u) },
+        3 => MsgSpec::Redelegate { src: val(u), dst: val(u), denom: d_den_msg(u), amt: d_amt_msg(u) },
+        4 => MsgSpec::SetWithdrawAddress { to: d_addr(u) },
+        _ => MsgSpec::WithdrawReward { val: val(u) },
+    }
+}
+/// `who(admin, granted, plain, removed, actor)`
+fn d_who(u: &mut arbitrary::Unstructured, admin: u32, granted: u32, plain: u32, removed: u32, actor: u32) -> Who {
+    match d_arm(u, &[admin, granted * 2, granted, plain, removed, actor]) {
+        0 => Who::Admin(d_sel(u)),
+        1 => Who::Holding(d_sel(u)),
+        2 => Who::Granted(d_sel(u)),
+        3 => Who::Plain(d_sel(u)),
+        4 => Who::Removed(d_sel(u)),
+        _ => Who::Actor(arb_below(u, N_SENDERS) as u8),
+    }
+}
+/// `sp`
+fn d_sp(u: &mut arbitrary::Unstructured) -> Sp {
+    match d_arm(u, &[6, 5, 4]) {
+        0 => Sp::NonAdmin(d_sel(u)),
+        1 => Sp::Holding(d_sel(u)),
+        _ => Sp::Addr(d_addr(u)),
+    }
+}
+/// `perm_bits`
+fn d_perm(u: &mut arbitrary::Unstructured) -> u8 {
+    match d_arm(u, &[4, 1, 6]) {
+        0 => 15,
+        1 => 0,
+        _ => arb_below(u, 16) as u8,
+    }
+}
+/// `admin_list`
+fn d_admin_list(u: &mut arbitrary::Unstructured) -> Vec<u8> {
+    let n = match d_arm(u, &[1, 8, 3]) {
+        0 => 0,
+        1 => 1 + arb_below(u, 2),
+        _ => 3,
+    };
+    (0..n).map(|_| d_addr(u)).collect()
+}
+/// `op_group`
+fn d_group(u: &mut arbitrary::Unstructured, prop: &str, subkeys: bool) -> Vec<Op> {
+    let w = op_weights(prop, subkeys);
+    let mw = msg_weights(prop);
+    let admin_who = |u: &mut arbitrary::Unstructured| d_who(u, 10, 1, 1, 1, 1);
+    let op = match d_arm(u, &[w.exec, w.mixed, w.covered, w.freeze, w.upd, w.incr, w.decr, w.perm, w.adv, 1, w.regrant]) {
+        0 => {
+            let by = if subkeys { d_who(u, 3, 8, 1, 1, 1) } else { d_who(u, 5, 0, 4, 2, 3) };
+            let n = match d_arm(u, &[1, 6, 8]) {
+                0 => 0,
+                1 => 1,
+                _ => 2 + arb_below(u, 4),
+            };
+            Op::Execute { by, msgs: (0..n).map(|_| d_msg(u, mw)).collect() }
+        }
+        1 => {
+            let by = d_who(u, 0, 12, 1, 0, 1);
+            let n = 1 + arb_below(u, 3);
+            let mut msgs: Vec<MsgSpec> = (0..n).map(|_| d_grantable(u)).collect();
+            msgs.push(d_msg(u, MsgWeights { send: 6, burn: 4, staking: 1, distr: 2, other: 1 }));
+            Op::Execute { by, msgs }
+        }
+        2 => {
+            let by = d_who(u, 0, 12, 0, 0, 1);
+            let n = 1 + arb_below(u, 4);
+            Op::Execute { by, msgs: (0..n).map(|_| d_grantable(u)).collect() }
+        }
+        3 => Op::Freeze { by: d_who(u, 6, 2, 2, 2, 2) },
+        4 => Op::UpdateAdmins { by: d_who(u, 8, 1, 1, 3, 2), admins: d_admin_list(u) },
+        5 => Op::Increase { by: admin_who(u), spender: d_sp(u), denom: d_den(u, [3, 8, 1]), amt: d_amt_grant(u), exp: if arb_bool(u, 2, 5) { None } else { Some(d_exp(u)) } },
+        6 => Op::Decrease { by: admin_who(u), spender: d_sp(u), denom: d_den(u, [8, 2, 1]), amt: d_amt_decrease(u), exp: if arb_bool(u, 4, 5) { None } else { Some(d_exp(u)) } },
+        7 => Op::SetPermissions { by: admin_who(u), spender: d_sp(u), perm: d_perm(u) },
+        8 => Op::Advance { blocks: arb_below(u, 4) as u8, secs: arb_below(u, 40) as u16 },
+        9 => Op::Upgrade { from: arb_below(u, 4) as u8 },
+        _ => {
+            // grant; advance; spend; grant again on one subkey
+            let s = d_sel(u);
+            let denom = Den::Ix(arb_below(u, 3) as u8);
+            let g1 = 1 + u.arbitrary::<u16>().unwrap_or(0) as u128 % 499;
+            let e1 = if arb_bool(u, 1, 2) { ExpSpec::Height(1 + arb_below(u, 3) as i32) } else { ExpSpec::Time(1 + arb_below(u, 14) as i64) };
+            let adv = arb_below(u, 4) as u8;
+            let n = 1 + arb_below(u, 2);
+            let msgs = (0..n).map(|_| MsgSpec::Send { to: d_addr(u), coins: d_coins(u, 3) }).collect();
+            let g2 = 1 + u.arbitrary::<u16>().unwrap_or(0) as u128 % 499;
+            let e2 = d_exp(u);
+            return vec![
+                Op::Increase { by: Who::Admin(0), spender: Sp::NonAdmin(s), denom: denom.clone(), amt: Amt::Abs(g1), exp: Some(e1) },
+                Op::Advance { blocks: adv, secs: adv as u16 * 5 },
+                Op::Execute { by: Who::NonAdmin(s), msgs },
+                Op::Increase { by: Who::Admin(0), spender: Sp::NonAdmin(s), denom, amt: Amt::Abs(g2), exp: Some(e2) },
+            ];
+        }
+    };
+    vec![op]
+}
+
+/// Byte decoder for the cw1 family: same shape as `case_strategy(prop, Tier::Quick)`.
+pub fn decode_case(prop: &str, u: &mut arbitrary::Unstructured) -> Case {
+    let subkeys = match prop {
+        "C08" => true,
+        "C17" => arb_bool(u, 1, 2),
+        "C16" => arb_bool(u, 3, 4),
+        _ => arb_bool(u, 7, 10),
+    };
+    let admins = d_admin_list(u);
+    let mutable = if prop == "C17" { arb_bool(u, 4, 5) } else { arb_bool(u, 9, 10) };
+    let mut ops = vec![];
+    if subkeys {
+        // prologue: a few grants by the first admin so that subkeys are live early
+        let n = arb_below(u, 5);
+        for _ in 0..n {
+            let k = d_sel(u);
+            ops.push(if d_arm(u, &[5, 2]) == 0 {
+                let denom = Den::Ix(arb_below(u, 3) as u8);
+                let g = 20 + u.arbitrary::<u16>().unwrap_or(0) as u128 % 1980;
+                let exp = match d_arm(u, &[3, 1, 2, 2]) {
+                    0 => None,
+                    1 => Some(ExpSpec::Never),
+                    2 => Some(ExpSpec::Height(5 + arb_below(u, 35) as i32)),
+                    _ => Some(ExpSpec::Time(30 + u.arbitrary::<u16>().unwrap_or(0) as i64 % 370)),
+                };
+                Op::Increase { by: Who::Admin(0), spender: Sp::NonAdmin(k), denom, amt: Amt::Abs(g), exp }
+            } else {
+                Op::SetPermissions { by: Who::Admin(0), spender: Sp::NonAdmin(k), perm: d_perm(u) }
+            });
+        }
+    }
+    // quick-tier size: 0..max_groups op groups
+    let n_groups = arb_below(u, if prop == "C16" { 25 } else { 40 });
+    for _ in 0..n_groups {
+        ops.extend(d_group(u, prop, subkeys));
+    }
+    let n_probes = if prop == "C16" { 20 } else { 0 };
+    let probes = (0..n_probes)
+        .map(|_| {
+            let sender = if subkeys { d_who(u, 2, 8, 1, 1, 2) } else { d_who(u, 4, 0, 3, 2, 3) };
+            Probe { sender, msg: d_msg(u, MsgWeights { send: 30, burn: 4, staking: 3, distr: 3, other: 1 }) }
+        })
+        .collect();
+    Case { subkeys, admins, mutable, ops, probes }
 }
